@@ -94,7 +94,12 @@ def check_case(case, ctx):
         try:
             with poisoned_empty(POISONS[0]):
                 m = qcall(Mandoline, src, fields=list(req), limit_level=limit, serial=serial, verbose=0)
-                qcall(m.slice, fformat="return")
+                first = qcall(m.slice, fformat="return")
+                # the caller owns what it was given: editing the returned arrays in place must not change later results
+                for key, arr in first.items():
+                    if isinstance(arr, np.ndarray) and arr.dtype.kind == "f" and arr.flags.writeable:
+                        arr *= 100.0
+                        arr -= 7.0
                 qcall(m.slice, fformat="return")
                 again = qcall(m.slice, fformat="return")
             for name in out_names + (["grid_level"] if do_grid else []) + ["x", "y"]:
